@@ -126,10 +126,11 @@ int Util::parseSize(const std::string& input, int64_t* output) {
       default:
         return -1;
     }
-    // the total has to fit the int64_t it is returned in
-    constexpr double kMaxSize = 9223372036854775807.0;
-    if (!std::isfinite(v) || v > kMaxSize ||
-        static_cast<double>(size) + v > kMaxSize) {
+    // the total has to fit the int64_t it is returned in: it must stay below
+    // 2^63 (INT64_MAX itself is not representable as a double)
+    constexpr double kSizeLimit = 9223372036854775808.0;
+    if (!std::isfinite(v) || v >= kSizeLimit ||
+        static_cast<double>(size) + v >= kSizeLimit) {
       return -1;
     }
     size += v;
